@@ -31,7 +31,7 @@ Inductive stmt :=
 | SLet (v : variable) (e : expr) (l : loc)
 | SVar (v : variable) (e : expr) (l : loc)
 | SSet (v : variable) (e : expr) (l : loc)
-| SNode (v : variable) (l : loc)
+| SNode (v : variable) (vtext : str) (l : loc)
 | SAttrNode (node : expr) (attrs : list attr) (l : loc)
 | SEdge (src snk : expr) (l : loc)
 | SAttrEdge (src snk : expr) (attrs : list attr) (l : loc)
@@ -42,7 +42,7 @@ Inductive stmt :=
 
 Definition stmt_loc (s : stmt) : loc :=
   match s with
-  | SLet _ _ l | SVar _ _ l | SSet _ _ l | SNode _ l | SAttrNode _ _ l | SEdge _ _ l
+  | SLet _ _ l | SVar _ _ l | SSet _ _ l | SNode _ _ l | SAttrNode _ _ l | SEdge _ _ l
   | SAttrEdge _ _ _ l | SScan _ _ l | SPrint _ l | SIf _ l | SFor _ _ _ _ l => l
   end.
 
